@@ -739,7 +739,7 @@ class Interp:
             if isinstance(lo, Const) and isinstance(hi, Const) and e.slice.step is None:
                 if isinstance(v, (ListLit, TupS)):
                     return type(v)(v.elts[lo.v:hi.v])
-                if isinstance(v, Const) and isinstance(v.v, (str, tuple, list, bytes)):
+                if isinstance(v, Const) and isinstance(v.v, (str, tuple, list, bytes, range)):
                     return Const(v.v[lo.v:hi.v])
                 if isinstance(v, Leaf):
                     return v.derive(f"[{lo.v}:{hi.v}]")
@@ -753,6 +753,8 @@ class Interp:
     def getitem(self, v, k, node=None):
         if isinstance(v, Obj) and "__getitem__" in v.fields:
             return self.call(v.fields["__getitem__"], [k], {}, node)
+        if isinstance(v, Obj) and getattr(v, "klass", None) is not None and self.find_class_attr(v.klass[0], v.klass[1], "__getitem__") is not None:
+            return self.call(self.getattr(v, "__getitem__"), [k], {}, node)
         if isinstance(v, Choice):
             return Choice([self.getitem(a, k, node) for a in v.alts])
         if isinstance(v, DictS) and isinstance(k, Const):
@@ -1136,6 +1138,16 @@ class Interp:
             cur = self.eval(st.target, sc)
             val = self.eval(st.value, sc)
             if isinstance(st.op, ast.BitOr):
+                if isinstance(cur, DictS) and isinstance(val, DictS):
+                    # d |= other updates the very dict object (every alias sees it), unlike d = d | other
+                    for k_, v_ in val.items.items():
+                        cur.items[k_] = v_
+                        if k_ in val.optional:
+                            if k_ not in cur.items:
+                                cur.optional.add(k_)
+                        else:
+                            cur.optional.discard(k_)
+                    return
                 self.bind(st.target, self.dict_union(cur, val), sc)
                 return
             if isinstance(cur, ListLit) and isinstance(st.op, ast.Add) and isinstance(val, (ListLit, TupS)):
